@@ -116,3 +116,85 @@ Theorem c04_roundtrip_reason : forall a1 a2 a3 reason extras,
      s_parse_reason f 10 = Ok {| p_ordered := 0; p_header := s_mgmt_header 10 a1 a2 a3; p_reason := reason; p_tags := enc extras |}).
 Proof. exact roundtrip_reason. Qed.
 Print Assumptions c04_roundtrip_reason.
+
+(* ---- the nine management-frame parsers AS TRANSLATED (Gen/Sites.v), for every classified-frame object (type, subtype, order flag, len, header_len, body address), allocator
+   answer and callee answers, with only the frame body readable where the routine loads from it: refusal exactly on a wrong type / subtype or a too short frame (each routine's own
+   comparison: rule_le / rule_bss / rule_none), ONE malloc(len - hl - FIXED), -ENOMEM before anything is copied from the body, then memcpy(q, body + FIXED, len - hl - FIXED): the
+   tagged parameters are the bytes that FOLLOW the fixed parameters, all of them (FIXED = 12, 12, 6, 6, 0, 4, 10); every copy from the body stays inside it; the capability octets
+   are loaded at offsets 10 / 0.  Deauthentication and disassociation deviate (reason_parser_ok): they size the tags from the constants 24/28 rather than from header_len and narrow
+   the length to int - consistent with what the classifier sets (reason_parser_consistent); parse_deauth_refuted_header_len / _refuted_int in Proofs/CodeMgmt.v show what happens
+   outside that.  parser_ok, parser_post, reason_parser_ok, rule_* are defined in Proofs/CodeMgmt.v. ---- *)
+From Coq Require Import String.
+From LW Require Import Base.Bytes Base.CExpr Gen.Sites Spec.CodeSpec Proofs.CodeMgmt.
+Local Open Scope string_scope.
+Local Open Scope Z_scope.
+
+Theorem c04_code_parse_beacon_ok : parser_ok body_libwifi_parse_beacon 8 12 "bss->tags.length" "bss->tags.parameters" (rule_bss 12) (bss_names 10).
+Proof. exact parse_beacon_ok. Qed.
+Print Assumptions c04_code_parse_beacon_ok.
+
+Theorem c04_code_parse_probe_resp_ok : parser_ok body_libwifi_parse_probe_resp 5 12 "bss->tags.length" "bss->tags.parameters" (rule_bss 12) (bss_names 10).
+Proof. exact parse_probe_resp_ok. Qed.
+Print Assumptions c04_code_parse_probe_resp_ok.
+
+Theorem c04_code_parse_assoc_resp_ok : parser_ok body_libwifi_parse_assoc_resp 1 6 "bss->tags.length" "bss->tags.parameters" (rule_bss 6) (bss_names 0).
+Proof. exact parse_assoc_resp_ok. Qed.
+Print Assumptions c04_code_parse_assoc_resp_ok.
+
+Theorem c04_code_parse_reassoc_resp_ok : parser_ok body_libwifi_parse_reassoc_resp 3 6 "bss->tags.length" "bss->tags.parameters" (rule_bss 6) (bss_names 0).
+Proof. exact parse_reassoc_resp_ok. Qed.
+Print Assumptions c04_code_parse_reassoc_resp_ok.
+
+Theorem c04_code_parse_probe_req_ok : parser_ok body_libwifi_parse_probe_req 4 0 "sta->tags.length" "sta->tags.parameters" rule_none sta_names.
+Proof. exact parse_probe_req_ok. Qed.
+Print Assumptions c04_code_parse_probe_req_ok.
+
+Theorem c04_code_parse_assoc_req_ok : parser_ok body_libwifi_parse_assoc_req 0 4 "sta->tags.length" "sta->tags.parameters" (rule_le 4) sta_names.
+Proof. exact parse_assoc_req_ok. Qed.
+Print Assumptions c04_code_parse_assoc_req_ok.
+
+Theorem c04_code_parse_reassoc_req_ok : parser_ok body_libwifi_parse_reassoc_req 2 10 "sta->tags.length" "sta->tags.parameters" (rule_le 10) sta_names.
+Proof. exact parse_reassoc_req_ok. Qed.
+Print Assumptions c04_code_parse_reassoc_req_ok.
+
+Theorem c04_code_seven_parsers_read_inside_the_body : parser_reads body_libwifi_parse_beacon 12 (bss_names 10) /\
+  parser_reads body_libwifi_parse_probe_resp 12 (bss_names 10) /\
+  parser_reads body_libwifi_parse_assoc_resp 6 (bss_names 0) /\
+  parser_reads body_libwifi_parse_reassoc_resp 6 (bss_names 0) /\
+  parser_reads body_libwifi_parse_probe_req 0 sta_names /\
+  parser_reads body_libwifi_parse_assoc_req 4 sta_names /\
+  parser_reads body_libwifi_parse_reassoc_req 10 sta_names.
+Proof. exact seven_parsers_read_inside_the_body. Qed.
+Print Assumptions c04_code_seven_parsers_read_inside_the_body.
+
+Theorem c04_code_parse_deauth_ok : reason_parser_ok body_libwifi_parse_deauth "deauth" 12.
+Proof. exact parse_deauth_ok. Qed.
+Print Assumptions c04_code_parse_deauth_ok.
+
+Theorem c04_code_parse_disassoc_ok : reason_parser_ok body_libwifi_parse_disassoc "disassoc" 10.
+Proof. exact parse_disassoc_ok. Qed.
+Print Assumptions c04_code_parse_disassoc_ok.
+
+Theorem c04_code_reason_parser_consistent : forall body obj subtype,
+  reason_parser_ok body obj subtype ->
+  forall rho ty st o len hl b q m,
+    0 <= ty < 2 ^ 31 -> 0 <= st < 2 ^ 31 -> 0 <= o < 2 ^ 31 ->
+    0 < b -> 0 <= hl <= len -> b + len < 2 ^ 62 -> 0 <= q < 2 ^ 62 -> rho "ret:malloc" = q ->
+    hl = (if o =? 0 then 24 else 28) -> len - hl - 2 < 2 ^ 31 ->
+    let res := exec 100 m (frame_env rho ty st o len hl b) [] body in
+    let n := len - hl - 2 in
+    let t0 := [("memset", [wrap u64 (rho obj); 0; 50])] in
+    let t1 := (t0 ++ [reason_hdr obj rho o; ("memcpy", [wrap u64 (rho ("&" ++ obj ++ "->fixed_parameters")%string); b; 2])])%list in
+    if negb (ty =? 0) || negb (st =? subtype) then observe res = Some (Some (-22), t0)
+    else if len <? hl + 2 then observe res = Some (Some (-22), t0)
+    else
+      b + 2 <= b + (len - hl) /\ (b + 2) + n = b + (len - hl) /\ 0 <= n /\
+      if n =? 0 then
+        exists rho', res = Returned (Some 0) rho' t1 /\ rho' (obj ++ "->tags.length") = n /\ rho' (obj ++ "->tags.parameters") = 0
+      else if q =? 0 then observe res = Some (Some (-12), (t1 ++ [("malloc", [n])])%list)
+      else exists rho',
+        res = Returned (Some 0) rho' (t1 ++ [("malloc", [n]); ("memcpy", [q; b + 2; n])])%list /\
+        rho' (obj ++ "->tags.length") = n /\ rho' (obj ++ "->tags.parameters") = q.
+Proof. exact reason_parser_consistent. Qed.
+Print Assumptions c04_code_reason_parser_consistent.
+
